@@ -18,7 +18,8 @@ import vlib
 from checks.c01 import _files, _errclass
 
 THEOREMS = ["Yardl.C03.cpp_and_python_writers_agree", "Yardl.C03.python_offset_stays_in_buffer",
-            "Yardl.C03.unchecked_byte_can_overflow", "Yardl.C03.union_index_encodings_agree_iff"]
+            "Yardl.C03.unchecked_byte_can_overflow", "Yardl.C03.union_index_encodings_agree_iff",
+            "Yardl.C03.streams_cross_languages"]
 
 
 def run(report, tier, seed):
